@@ -193,6 +193,103 @@ def _decl_of(fn, pathkey):
     return None
 
 
+def _split_container_loops(fn, top, length_key, indef_key, env, mr):
+    """The two length forms handled by a loop each:
+
+        if (!indef) { for (; length > 0; length--) BODY  [return;] }
+        for (;;) { if (peek_type() == BREAK) { read_break(); break; }  BODY }          (or in the else branch)
+
+    -> the statement list [break test] + BODY of the indefinite loop (problems recorded in mr) when the shape is recognised and
+    both bodies are the same statements; None otherwise."""
+    def shape(n):
+        if isinstance(n, list):
+            return [shape(x) for x in n]
+        if not isinstance(n, dict):
+            return n
+        if n.get("k") == "Cast":
+            return shape(n.get("e"))
+        return {k: shape(v) for k, v in sorted(n.items()) if k not in ("l", "t", "tw", "cv", "from", "ck", "id")}
+    sel = None
+    for i, s_ in enumerate(top):
+        if isinstance(s_, dict) and s_.get("k") == "If" and s_.get("condvar") is None:
+            c = cond(s_["cond"], env)
+            if c == ("not", ("nz", indef_key)):
+                sel = (i, s_, s_.get("then"), s_.get("else"))
+            elif c == ("nz", indef_key):
+                sel = (i, s_, s_.get("else"), s_.get("then"))
+            if sel:
+                break
+    if sel is None:
+        return None
+    i, ifn, definite, indefinite = sel
+    dsts = [x for x in ir.stmts(definite) if isinstance(x, dict) and x.get("k") != "Null"] if definite is not None else []
+    leaves = bool(dsts) and dsts[-1].get("k") == "Return" and dsts[-1].get("e") is None
+    if leaves:
+        dsts = dsts[:-1]
+    if len(dsts) != 1 or dsts[0].get("k") not in ("For", "While"):
+        return None
+    L1 = dsts[0]
+    if L1.get("cond") is None or cond(L1["cond"], env) != ("nz", length_key):
+        return None
+    if indefinite is not None:
+        ists = [x for x in ir.stmts(indefinite) if isinstance(x, dict) and x.get("k") != "Null"]
+    elif leaves:
+        ists = [x for x in top[i + 1:] if isinstance(x, dict) and x.get("k") not in ("Null",) and not (x.get("k") == "Return" and x.get("e") is None)]
+    else:
+        return None
+    if len(ists) != 1 or ists[0].get("k") not in ("For", "While"):
+        return None
+    L2 = ists[0]
+    c2 = cond(L2["cond"], env) if L2.get("cond") is not None else ("T",)
+    if c2 not in (("T",), ("nz", indef_key)) or (L2.get("k") == "For" and (L2.get("init") is not None or L2.get("inc") is not None)):
+        return None
+    # the counted loop: one decrement per iteration
+    b1 = [x for x in ir.stmts(L1.get("body")) if isinstance(x, dict) and x.get("k") != "Null"]
+
+    def is_dec(n):
+        u = unwrap(n)
+        return isinstance(u, dict) and ((u.get("k") == "Un" and u.get("op") in ("post--", "pre--") and path_str(path(u["e"]) or ()) == length_key) or
+                                        (u.get("k") == "Bin" and u.get("op") == "-=" and path_str(path(u["lhs"]) or ()) == length_key and const_value(u.get("rhs")) == 1))
+    hdr = L1.get("k") == "For" and L1.get("inc") is not None and is_dec(L1["inc"])
+    body_decs = [x for x in b1 if is_dec(x)]
+    nested_decs = [n for x in b1 if not is_dec(x) for n in ir.walk(x) if is_dec(n)]
+    if (hdr and (body_decs or nested_decs)) or (not hdr and (len(body_decs) != 1 or nested_decs)):
+        mr.problems.append(("length", L1.get("l", 0), "length must be decremented exactly once per iteration of the counted loop"))
+    if any(n.get("k") == "Continue" for x in b1 for n in ir.walk(x)) and not hdr:
+        mr.problems.append(("length", L1.get("l", 0), "`continue` skips the length decrement"))
+    b1 = [x for x in b1 if not is_dec(x)]
+    b2 = [x for x in ir.stmts(L2.get("body")) if isinstance(x, dict) and x.get("k") != "Null"]
+    if not b2:
+        return None
+    # the stop code is looked for before an element is read
+    def is_break_test(st):
+        if st.get("k") != "If" or st.get("else") is not None:
+            return False
+        cmps = []
+        for n in ir.walk(st["cond"]):
+            if n.get("k") == "Bin" and n.get("op") == "==":
+                sides = [unwrap_all_casts(n["lhs"]), unwrap_all_casts(n["rhs"])]
+                if any(isinstance(x, dict) and decoder_call(x) == "peek_type" for x in sides) and \
+                        any(isinstance(x, dict) and x.get("d") == "enumconst" and x.get("enum") == "CDNS::CborType" for x in sides):
+                    cmps.append(n)
+        cj = [a for a in conjuncts(cond(st["cond"], env)) if a != ("nz", indef_key)]
+        tb = ir.stmts(st["then"])
+        calls = [decoder_call(x) for s_ in tb for x in ir.walk(s_) if x.get("k") == "MCall"]
+        return len(cmps) == 1 and len(cj) == 1 and calls == ["read_break"] and bool(tb) and tb[-1].get("k") == "Break"
+    tests = [x for x in b2 if is_break_test(x)]
+    if len(tests) != 1:
+        return None
+    rest = [x for x in b2 if x is not tests[0]]
+    if b2[0] is not tests[0]:
+        mr.problems.append(("break", tests[0].get("l", 0), "in the indefinite-length loop the stop code is tested after an element was read: "
+                            "an empty indefinite-length container has its break read as an element"))
+    if shape(rest) != shape(b1):
+        return None
+    mr.loop = L2
+    mr.split = (ifn, L1, L2)
+    return [tests[0]] + rest
+
+
 def loop_condition_ok(c, length_key, indef_key):
     """cond == (length != 0 || indef)"""
     want = f_or(("nz", length_key), ("nz", indef_key))
@@ -285,6 +382,10 @@ def analyse_map_reader(fn, facts, start_name="read_map_start"):
         if ("nz", indef_key) in (c[1:] if c[0] == "or" else [c]) or length_key in repr(c):
             cand.append((l, c))
     if len(cand) != 1:
+        sp = _split_container_loops(fn, top, length_key, indef_key, env, mr)
+        if sp is not None:
+            mr.length_key, mr.indef_key, mr.env = length_key, indef_key, env
+            return mr, sp
         mr.unrecognised.append((fn["line"], "expected one loop over the container, found %d" % len(cand)))
         return mr
     loop, c = cand[0]
